@@ -41,6 +41,7 @@ def run():
     cases = wire.generate(world, rng, thorough)
     outs, _ = wire.evaluate_cases(r, cases)
     nbad_design = 0
+    conn = ReadDecoder(td)      # the decoder of one long connection
     for ci, (t, o) in enumerate(zip(cases, outs)):
         if not o["ok"]:
             nbad_design += 1
@@ -61,11 +62,11 @@ def run():
         if got is not None and got != b"\x00" + body:
             r.violation("emit:not-reference-encoding", "the library's bytes for %s are not the encoding the reference implementation accepts for this tree" % (desc,), {"case": ci})
 
-        def check(frame, what, pos):
+        def check(frame, what, pos, decoder=None):
             r.case(("decode", ci, what, pos))
             r.cov["traces_validated_against_impl"] += 1
             try:
-                back = ReadDecoder(td).getProtocolTreeNode(bytearray(frame))
+                back = (decoder or ReadDecoder(td)).getProtocolTreeNode(bytearray(frame))
             except Exception as e:
                 r.violation("decode:%s:exception:%s" % (what, type(e).__name__), "decoder raised %r on a valid %s encoding (position %s) of %s" % (e, what, pos, desc),
                             {"case": ci, "what": what, "pos": pos})
@@ -92,6 +93,10 @@ def run():
             check(b"\x00" + allb, "all-alternatives", "*")
             # compressed frame
             check(b"\x02" + zlib.compress(body), "deflate", "*")
+            # the frames of ONE connection go through one decoder object: plain and compressed frames in any mix, one after the other
+            check(b"\x02" + zlib.compress(body, 1 + ci % 9), "stream-deflate", ci, conn)
+            if ci % 3 == 0:
+                check(b"\x00" + body, "stream-plain", ci, conn)
         if ci in (5, 400):
             r.sample({"tree": desc, "positions": nseg, "alternatives": sum(len(sg["alts"]) for sg in segs)})
     if nbad_design:
